@@ -172,3 +172,98 @@ Section EngineProofs.
     apply findBug_first; assumption.
   Qed.
 End EngineProofs.
+
+(* ---- doCheck / checkTB: a reported failure is real ---- *)
+Section Reported.
+  Variable geom : nat -> N -> N.
+  Variable LF : nat.
+  Hypothesis HLF : 1 <= LF.
+  Variable lvl : nat.
+  Variable p : prog.
+  Notation run := (run_case geom LF lvl p).
+  (* the property is run only in ways that leave no trace of rejected attempts, and the model's fuel suffices *)
+  Hypothesis Hclean : forall x, dirty (w (run x)) = false.
+  Hypothesis Hnofuel : forall x, res (run x) <> Err XFuel.
+
+  Lemma tbk_refl_failing r : (forall m, r <> Err (XInvalid m)) -> r <> Err XFuel -> (forall u, r <> Ok u) ->
+    exists s, tb_of r = TSite s.
+  Proof.
+    destruct r as [u|[m|m s|m s|]]; intros H1 H2 H3; cbn.
+    - exfalso. eapply H3; reflexivity.
+    - exfalso. eapply H1; reflexivity.
+    - eexists; reflexivity.
+    - eexists; reflexivity.
+    - congruence.
+  Qed.
+  Lemma tbk_eqb_refl_site s : tbk_eqb (TSite s) (TSite s) = true.
+  Proof. cbn. apply site_eqb_refl. Qed.
+
+  Lemma check_files_real : forall files idx logs invs r logs' invs',
+    check_files geom LF lvl p files idx logs invs = (Some r, logs', invs') ->
+    let '(i, buf, e1, e2) := r in
+    e1 = res (run (SBuf buf)) /\ e2 = e1 /\ (forall u, e1 <> Ok u) /\ (forall m, e1 <> Err (XInvalid m)).
+  Proof.
+    induction files as [|f fs IH]; intros idx logs invs r logs' invs'; cbn [check_files]; [discriminate|].
+    destruct f as [|[|] buf]; try apply IH.
+    destruct (res (run (SBuf buf))) as [u|[m|m s|m s|]] eqn:Er; try apply IH;
+      intros H; injection H as <- _ _; rewrite Er; repeat split; discriminate.
+  Qed.
+
+  Theorem reported_failure_is_real files checks nofailfile early seed cands clock :
+    let tb := checkTB geom LF lvl p files checks nofailfile early seed cands clock in
+    tb_failed tb = true ->
+    match tb_verdict tb with
+    | VOk _ => False
+    | VOnlyGenerated _ _ => tb_final tb = None /\ tb_saved tb = None
+    | VFlaky => False
+    | VFailedAfter _ e | VPanicAfter _ e =>
+        let buf := dc_buf (tb_dc tb) in
+        (* the final replay runs the presented buffer, fails with the reported error, and the bytes
+           handed to the fail file are that buffer *)
+        tb_final tb = Some (run (SBuf buf)) /\ res (run (SBuf buf)) = Err e /\
+        (tb_saved tb = None \/ tb_saved tb = Some buf) /\
+        dc_err2 (tb_dc tb) = Err e /\ (forall m, e <> XInvalid m)
+    end.
+  Proof.
+    cbv zeta. unfold Shrink.checkTB.
+    set (dc := doCheck geom LF lvl p files checks early seed cands clock).
+    assert (Hdc :
+      (dc_err1 dc = Ok tt /\ dc_err2 dc = Ok tt) \/
+      (exists s, tb_of (dc_err1 dc) = TSite s /\ tb_of (dc_err2 dc) = TSite s /\
+                 res (run (SBuf (dc_buf dc))) = dc_err2 dc)).
+    { unfold dc, Shrink.doCheck.
+      destruct (check_files geom LF lvl p files 0 [] []) as [[[r|] logs] invs] eqn:Ecf.
+      - destruct r as [[[i buf] e1] e2]. pose proof (check_files_real _ _ _ _ _ _ _ Ecf) as R. cbv beta iota in R.
+        destruct R as [R1 [R2 [R3 R4]]]. right. cbn [dc_err1 dc_err2 dc_buf].
+        destruct (tbk_refl_failing e1 R4 ltac:(rewrite R1; apply Hnofuel) R3) as [s Hs].
+        exists s. rewrite R2. split; [exact Hs|split; [exact Hs|symmetry; exact R1]].
+      - destruct (fb_err (findBug0 geom LF lvl p checks early seed)) as [e1|] eqn:Efb; [|left; split; reflexivity].
+        right.
+        assert (Hne : e1 <> XFuel).
+        { intros ->. revert Efb. unfold Shrink.findBug0. apply findBug_no_fuel; solve [exact Hnofuel | unfold mult; lia]. }
+        unfold Shrink.findBug0 in *.
+        destruct (findBug_failure geom LF lvl p _ _ _ _ _ _ _ _ Efb Hne) as [Hr [Hni _]].
+        set (x := SRnd (jsf_init (fb_seed _))) in *.
+        rewrite Hr. rewrite (res_eqb_refl (Err e1)). cbn [negb].
+        destruct (tbk_refl_failing (Err e1)) as [s0 Hs0]; [intros m E; injection E as ->; eapply Hni; reflexivity|congruence|discriminate|].
+        destruct (Shrink.shrink_any geom LF lvl p cands clock 0 (shrink_start (run x))) as [sf ab] eqn:Esh.
+        assert (HI : Inv geom LF lvl p s0 (rpd (w (run x))) (shrink_start (run x))).
+        { unfold Inv, shrink_start. cbn [s_data s_err]. split; [exists x; split; reflexivity|].
+          split; [unfold failing; rewrite Hr; exact Hs0|apply sl_le_refl]. }
+        destruct (shrink_any_inv geom LF HLF lvl p s0 (rpd (w (run x))) cands clock 0 _ sf ab HI Esh) as [HI' [-> [_ _]]].
+        cbn [dc_err1 dc_err2 dc_buf].
+        destruct (inv_reproduces geom LF HLF lvl p s0 (rpd (w (run x))) sf HI' Hclean) as [Q1 _].
+        destruct HI' as [_ [Hf' _]]. unfold failing in Hf'.
+        exists s0. split; [exact Hs0|split; [exact Hf'|exact Q1]]. }
+    destruct Hdc as [[E1 E2]|[s [T1 [T2 Hrep]]]].
+    - rewrite E1, E2. destruct (_ || _); cbn; [discriminate|auto].
+    - destruct (dc_err1 dc) as [u1|x1] eqn:D1; [cbn in T1; discriminate|].
+      destruct (dc_err2 dc) as [u2|x2] eqn:D2; [cbn in T2; discriminate|].
+      rewrite T1, T2, tbk_eqb_refl_site. cbn [tb_failed tb_verdict tb_final tb_saved tb_dc]. intros _.
+      destruct x2 as [m|m s2|m s2|]; cbn in T2; try discriminate.
+      + split; [reflexivity|]. split; [exact Hrep|]. split; [destruct (dc_fromfile dc); [left|destruct nofailfile; [left|right]]; reflexivity|].
+        split; [exact D2|discriminate].
+      + split; [reflexivity|]. split; [exact Hrep|]. split; [destruct (dc_fromfile dc); [left|destruct nofailfile; [left|right]]; reflexivity|].
+        split; [exact D2|discriminate].
+  Qed.
+End Reported.
